@@ -112,8 +112,10 @@ def run_cases(mod, descs, workdir, jobs=16):
         recs.append(rec)
     t_impl = time.time() - t0
     terms = [mod.coq_term(d) for d in descs]
-    outs, errors, t_coq = gtlib.run_model(terms, workdir, extra_imports=getattr(mod, "IMPORTS", ""),
-                                          shard=getattr(mod, "SHARD", 20), jobs=jobs)
+    mk = dict(extra_imports=getattr(mod, "IMPORTS", ""), shard=getattr(mod, "SHARD", 20), jobs=jobs)
+    if getattr(mod, "HEADER", None):
+        mk.update(header=mod.HEADER, ctype="list Z", lst=("[", "]"))
+    outs, errors, t_coq = gtlib.run_model(terms, workdir, **mk)
     for rec, o in zip(recs, outs):
         rec["model"] = o
         if rec["impl_error"] is not None:
@@ -130,8 +132,7 @@ def run_cases(mod, descs, workdir, jobs=16):
     if hasattr(mod, "alt_terms"):
         cand = [(rec, t) for rec in recs if rec["dis"] and rec["obs"] is not None for t in mod.alt_terms(rec["desc"])]
         if cand:
-            aouts, aerr, _ = gtlib.run_model([t for _, t in cand], os.path.join(workdir, "alt"),
-                                             extra_imports=getattr(mod, "IMPORTS", ""), shard=getattr(mod, "SHARD", 20), jobs=jobs)
+            aouts, aerr, _ = gtlib.run_model([t for _, t in cand], os.path.join(workdir, "alt"), **mk)
             for (rec, _), o in zip(cand, aouts):
                 if o is not None and rec["dis"] and not gtlib.compare(rec["obs"], o):
                     rec["dis"] = []
